@@ -67,3 +67,74 @@ func SelfTestMain(prop string, n int) int {
 	}
 	return 0
 }
+
+// ReplayFidelityMain: the second half of the determinism self-test. For n seeds the run is generated in a fresh
+// process (with its trace), the trace is re-executed by `replay` in another fresh process, and the two run digests
+// (trace + all transcripts) are compared. Generation-vs-generation comparison (SelfTestMain) cannot see a replay
+// that deviates from the run it was recorded from; this can (DESIGN 11.14).
+func ReplayFidelityMain(prop string, n int) int {
+	bad, done := 0, 0
+	type job struct {
+		seed uint64
+		gen  string
+		rep  string
+		err  string
+	}
+	jobs := make([]job, n)
+	var wg sync.WaitGroup
+	sem := make(chan struct{}, 8)
+	for i := range jobs {
+		jobs[i].seed = core.SplitMix64(515151, propTag(prop), uint64(i)) >> 1
+		wg.Add(1)
+		go func(j *job) {
+			defer wg.Done()
+			sem <- struct{}{}
+			defer func() { <-sem }()
+			cmd := exec.Command(os.Args[0], "worker", prop, "quick")
+			cmd.Stdin = strings.NewReader(fmt.Sprintf("%d trace\n", j.seed))
+			var b bytes.Buffer
+			cmd.Stdout = &b
+			cmd.Run()
+			var g RunReport
+			ok := false
+			sc := bufio.NewScanner(&b)
+			sc.Buffer(make([]byte, 1<<20), 1<<30)
+			for sc.Scan() {
+				if strings.HasPrefix(sc.Text(), "{") && json.Unmarshal(sc.Bytes(), &g) == nil {
+					ok = true
+				}
+			}
+			if !ok || g.Trace == nil || g.HarnessErr != "" {
+				j.err = "generation gave no trace: " + g.HarnessErr
+				return
+			}
+			j.gen = g.Digest
+			r, _ := replayTrace(g.Trace)
+			if r == nil || r.HarnessErr != "" {
+				j.err = "replay failed"
+				if r != nil {
+					j.err += ": " + r.HarnessErr
+				}
+				return
+			}
+			j.rep = r.Digest
+		}(&jobs[i])
+	}
+	wg.Wait()
+	for _, j := range jobs {
+		if j.err != "" {
+			fmt.Printf("SKIPPED seed %d: %s\n", j.seed, j.err)
+			continue
+		}
+		done++
+		if j.gen != j.rep {
+			bad++
+			fmt.Printf("REPLAY DEVIATES seed %d: generation digest %s, replay digest %s\n", j.seed, j.gen, j.rep)
+		}
+	}
+	fmt.Printf("selftest-replay %s: %d seeds generated and replayed in fresh processes, %d replays deviating from their run\n", prop, done, bad)
+	if bad > 0 || done == 0 {
+		return 1
+	}
+	return 0
+}
